@@ -68,8 +68,11 @@ def confirm(slot, sid):
     res["with_change"] = with_change
     baseline_fail = "raft::filestore::raftlog::tests::write_index_equal_error_when_index_mismatch"
     demo_failed = [n for n in with_change["failed_names"] if baseline_fail not in n]
-    res["existing_tests_pass_with_change"] = (not with_change["compile_error"]) and with_change["passed"] is not None and \
-        all(("c0" in n or "c1" in n or "c2" in n or "demo" in n) for n in [x.split()[-1].lower() for x in demo_failed]) and with_change["passed"] >= 36 - 0
+    stable = {n.split("::", 1)[1] for n in json.load(open("/root/.vp/BASELINE.json"))["stable_pass"]}
+    broken_existing = [n for n in with_change["failed_names"] if n.split()[-1] in stable]
+    res["existing_tests_broken_by_change"] = broken_existing
+    res["existing_tests_pass_with_change"] = (not with_change["compile_error"]) and with_change["passed"] is not None and not broken_existing \
+        and with_change["passed"] >= 36
     res["demo_fails_with_change"] = bool(demo_failed) if has_demo else None
     if has_demo:
         # without the change, with the demonstration
